@@ -24,11 +24,25 @@ HTML_FILES = ["html5.go", "xss.go", "xss_helpers.go"]
 
 
 def sh(cmd, cwd=None, timeout=600):
+    # own process group: on a timeout the whole group is killed (a mutant that loops for ever
+    # would otherwise leave the harness's worker processes spinning as orphans)
+    import signal
+    p = subprocess.Popen(cmd, cwd=cwd, env=ENV, stdout=subprocess.PIPE, stderr=subprocess.STDOUT, start_new_session=True)
     try:
-        p = subprocess.run(cmd, cwd=cwd, env=ENV, stdout=subprocess.PIPE, stderr=subprocess.STDOUT, timeout=timeout)
-        return p.returncode, p.stdout.decode(errors="replace")
+        out, _ = p.communicate(timeout=timeout)
+        return p.returncode, out.decode(errors="replace")
     except subprocess.TimeoutExpired:
+        try:
+            os.killpg(p.pid, signal.SIGKILL)
+        except Exception:
+            pass
+        p.wait()
         return 124, "timeout"
+    finally:
+        try:
+            os.killpg(p.pid, signal.SIGKILL)
+        except Exception:
+            pass
 
 
 def main():
